@@ -101,17 +101,29 @@ Theorem C14_mask_residual : forall s0 s1 add mode cat d i j,
   residual add (Some mode) s0 s1 cat d i j = if blank_px s0 s1 mode cat i j then None else Some d.
 Proof. exact mask_residual. Qed.
 
-(* column renaming: each user-named column becomes the field its parameter is named after; with the
-   default names the table is used as it is; a missing column is an error.
-   FULL statement (any table that has the six user-named columns loads, field f holding the user's
-   column) is REFUTED for tables that also contain a canonical name: Refuted/C14_rename.v *)
+(* column renaming (load_sources, repaired shape: copy the requested columns, remove every column
+   named like a requested or a catalogue column, add the copies under the catalogue names) - FULL
+   statement: for every table that has the six requested columns - whatever other columns it has,
+   including columns already named like a catalogue field (peak_col = int_flux next to peak_flux) and
+   swapped names (a_col = b, b_col = a) - loading succeeds, the catalogue field of each parameter holds
+   the user's column, every column that is neither requested nor a catalogue name is kept, and
+   column names stay unique.  The pre-repair sequential rename_column violated this:
+   Refuted/C14_rename.v (frozen regression record). *)
 Theorem C14_rename_pairs :
   combine rename_from rename_to =
   [("ra_col", "ra"); ("dec_col", "dec"); ("peak_col", "peak_flux"); ("a_col", "a"); ("b_col", "b"); ("pa_col", "pa")]%string.
 Proof. exact leaf_rename. Qed.
-Theorem C14_rename_default_partial : forall V (t : table V), Forall (fun c => has V t c = true) rename_to ->
-  load_table V default_colmap t = Some t.
-Proof. exact load_default. Qed.
+Theorem C14_rename : forall V (t : table V) colmap,
+  (forall p, In p rename_from -> has V t (colmap p) = true) ->
+  exists t', load_table V colmap t = Some t'
+    /\ (forall p f, In (p, f) (combine rename_from rename_to) -> col V t' f = col V t (colmap p))
+    /\ (forall c, ~ In c (map colmap rename_from ++ rename_to) -> col V t' c = col V t c)
+    /\ (NoDup (map fst t) -> NoDup (map fst t')).
+Proof. exact load_full. Qed.
+(* a missing requested column is reported (None), never a silently wrong catalogue *)
+Theorem C14_rename_missing : forall V (t : table V) colmap p,
+  In p rename_from -> has V t (colmap p) = false -> load_table V colmap t = None.
+Proof. exact load_missing. Qed.
 
 (* ---- non-vacuity *)
 Definition ex_src : psrc := mkSrc 2 (1 / 10) 6 7 3 2 30.
@@ -131,6 +143,17 @@ Qed.
 Example C14_example_regular : Forall regular [ex_src].
 Proof. repeat constructor; unfold ex_src; cbn [s_sx s_sy]; lra. Qed.
 
+(* the two inputs that used to fail: an Aegean-like table read with peak_col = int_flux, and swapped a / b *)
+Definition ex_table : table nat := [("ra", 1%nat); ("dec", 2%nat); ("peak_flux", 3%nat); ("int_flux", 4%nat); ("a", 5%nat); ("b", 6%nat); ("pa", 7%nat); ("local_rms", 8%nat)]%string.
+Example C14_example_collision :
+  load_table nat (fun p => if String.eqb p "peak_col" then "int_flux" else default_colmap p)%string ex_table
+  = Some [("local_rms", 8%nat); ("ra", 1%nat); ("dec", 2%nat); ("peak_flux", 4%nat); ("a", 5%nat); ("b", 6%nat); ("pa", 7%nat)]%string.
+Proof. reflexivity. Qed.
+Example C14_example_swap :
+  load_table nat (fun p => if String.eqb p "a_col" then "b" else if String.eqb p "b_col" then "a" else default_colmap p)%string ex_table
+  = Some [("int_flux", 4%nat); ("local_rms", 8%nat); ("ra", 1%nat); ("dec", 2%nat); ("peak_flux", 3%nat); ("a", 6%nat); ("b", 5%nat); ("pa", 7%nat)]%string.
+Proof. reflexivity. Qed.
+
 Print Assumptions C14_model_is_sum.
 Print Assumptions C14_covers_spec.
 Print Assumptions C14_additive.
@@ -146,4 +169,5 @@ Print Assumptions C14_mask_exact.
 Print Assumptions C14_mask_exact_window.
 Print Assumptions C14_mask_residual.
 Print Assumptions C14_rename_pairs.
-Print Assumptions C14_rename_default_partial.
+Print Assumptions C14_rename.
+Print Assumptions C14_rename_missing.
